@@ -119,6 +119,71 @@ func (vc *VC) funcValue(f *ssa.Function) Term {
 	return Term{name, SFunc}
 }
 
+// recvElemTypes lists the element types of the channels received from inside loop li.
+func (fr *Frame) recvElemTypes(li *loopInfo) []types.Type {
+	var out []types.Type
+	for b := range li.blocks {
+		for _, in := range b.Instrs {
+			switch x := in.(type) {
+			case *ssa.Select:
+				for _, ss := range x.States {
+					if ss.Dir == types.RecvOnly {
+						out = append(out, ss.Chan.Type().Underlying().(*types.Chan).Elem())
+					}
+				}
+			case *ssa.UnOp:
+				if x.Op == token.ARROW {
+					out = append(out, x.X.Type().Underlying().(*types.Chan).Elem())
+				}
+			}
+		}
+	}
+	return out
+}
+
+// recvAssume applies the contract's recvfrom assumptions to a received value.
+func (fr *Frame) recvAssume(st *State, ch ssa.Value, val Term, elem types.Type) {
+	vc := fr.vc
+	if fr.contract == nil {
+		return
+	}
+	for _, rs := range fr.contract.Recvs {
+		if p, ok := ch.(*ssa.Parameter); !ok || p.Name() != rs.Chan {
+			continue
+		}
+		env := fr.baseEnv(st)
+		env.vars["value"] = SpecVal{T: val, Ty: elem}
+		t, err := env.EvalBool(rs.Clause.E)
+		if err != nil {
+			vc.note("contract error: recvfrom %s: %v", rs.Chan, err)
+			continue
+		}
+		st.assume(t)
+		vc.assume("values received from channel " + rs.Chan + " in " + fr.fn.Name() + " satisfy: " + rs.Clause.Src)
+	}
+}
+
+// bumpRecv increments the ghost receive counter of channel ch when cond holds.
+func (vc *VC) bumpRecv(st *State, ch Term, cond Term, elem types.Type) {
+	cur := vc.recvCounts(st, elem)
+	st.ghost[vc.recvKey(elem)] = vc.Define("chrecv", Store(cur, Rid(ch), Add(Select(cur, Rid(ch)), Ite(cond, IntLit(1), IntLit(0)))))
+}
+
+// channels of different element types are different objects: one counter array per element type
+func (vc *VC) recvKey(elem types.Type) string { return fmt.Sprintf("chrecv!%d", vc.tt.TID(elem)) }
+
+func (vc *VC) recvCounts(st *State, elem types.Type) Term {
+	if t, ok := st.ghost[vc.recvKey(elem)]; ok {
+		return t
+	}
+	name := "G0!" + vc.recvKey(elem)
+	if !vc.heapInit[name] {
+		vc.heapInit[name] = true
+		vc.emitf("(declare-const %s (Array Int Int))\n", name)
+	}
+	return Term{name, SArray(SInt, SInt)}
+}
+
 // sentinel: package-level error variables named Err* are modelled as immutable,
 // non-nil, pairwise distinct constants (recorded as an assumption).
 func (vc *VC) sentinel(obj *types.Var) (Term, bool) {
@@ -476,10 +541,25 @@ func (fr *Frame) instr(st *State, b *ssa.BasicBlock, in ssa.Instruction) (bool, 
 			}
 			fr.vals[x] = v
 		case token.ARROW:
-			if x.CommaOk {
-				return false, havocValue(x, "channel receive")
+			// channel receive: an unconstrained value; the ghost receive counter of the channel is bumped
+			vc.nondet = true
+			elem := x.X.Type().Underlying().(*types.Chan).Elem()
+			srt, err := vc.tt.SortOf(elem)
+			if err != nil {
+				return false, havocValue(x, "channel receive of unsupported element type")
 			}
-			return false, havocValue(x, "channel receive")
+			val := vc.Fresh(x.Name(), srt)
+			st.assume(vc.rangeAssumption(val, elem, st.alloc))
+			okv := True
+			if x.CommaOk {
+				okv = vc.Fresh(x.Name()+"ok", SBool)
+				fr.tuples[x] = []Term{val, okv}
+			} else {
+				fr.vals[x] = val
+			}
+			vc.bumpRecv(st, a, True, elem)
+			fr.recvAssume(st, x.X, val, elem)
+			vc.assume("channel operations: a receive yields an unconstrained value, sends are effect-free; blocking, buffering and the communicating partner are not modelled")
 		default:
 			return false, havocValue(x, "unsupported unary op")
 		}
@@ -679,6 +759,7 @@ func (fr *Frame) instr(st *State, b *ssa.BasicBlock, in ssa.Instruction) (bool, 
 			old := vc.heap(st, es)
 			nh := vc.MixHeap(es, old, Neq(Rid(Term{"q!r", SRef}), Rid(base)))
 			st.heaps[es] = nh
+			st.touch(es)
 			n := App(SInt, "strlen", a)
 			def(x, MkSlice(base, n, n))
 			break
@@ -749,7 +830,41 @@ func (fr *Frame) instr(st *State, b *ssa.BasicBlock, in ssa.Instruction) (bool, 
 	case *ssa.Send:
 		vc.note("%s: channel send treated as effect-free", fr.pos(in.Pos()))
 	case *ssa.Select:
-		return false, havocValue(x, "select: nondeterministic choice")
+		// nondeterministic choice among the arms; receive arms bump the ghost receive counter
+		vc.nondet = true
+		n := len(x.States)
+		idxT := types.Typ[types.Int]
+		idxS, _ := vc.tt.SortOf(idxT)
+		idx := vc.Fresh(x.Name()+"idx", idxS)
+		lo := int64(0)
+		if !x.Blocking {
+			lo = -1
+		}
+		idxI := vc.toIndex(idx, idxT)
+		st.assume(And(Le(IntLit(lo), idxI), Lt(idxI, IntLit(int64(n)))))
+		recvOk := vc.Fresh(x.Name()+"ok", SBool)
+		tup := []Term{idx, recvOk}
+		for i, ss := range x.States {
+			if ss.Dir != types.RecvOnly {
+				continue
+			}
+			ch, err := fr.value(ss.Chan)
+			if err != nil {
+				return false, fr.unsupportedErr(in, err)
+			}
+			elem := ss.Chan.Type().Underlying().(*types.Chan).Elem()
+			srt, err := vc.tt.SortOf(elem)
+			if err != nil {
+				return false, havocValue(x, "select receive of unsupported element type")
+			}
+			val := vc.Fresh(fmt.Sprintf("%s_r%d", x.Name(), i), srt)
+			st.assume(vc.rangeAssumption(val, elem, st.alloc))
+			tup = append(tup, val)
+			vc.bumpRecv(st, ch, Eq(idxI, IntLit(int64(i))), elem)
+			fr.recvAssume(st, ss.Chan, val, elem)
+		}
+		fr.tuples[x] = tup
+		vc.assume("channel operations: a receive yields an unconstrained value, sends are effect-free; blocking, buffering and the communicating partner are not modelled")
 	case *ssa.MakeClosure:
 		fn := x.Fn.(*ssa.Function)
 		t := vc.Fresh("closure", SFunc)
@@ -1081,6 +1196,8 @@ func (fr *Frame) rangeNext(st *State, x *ssa.Next, havoc func(ssa.Value, string)
 	qk := Term{"q!k", rs.ks}
 	allVisited := Term{fmt.Sprintf("(forall ((q!k %s)) (=> %s %s))", rs.ks, Select(dom, qk).S, Select(vis, qk).S), SBool}
 	st.assume(And(Implies(okv, And(Neq(Rid(rs.m), IntLit(0)), Select(dom, k), Not(Select(vis, k)))), Implies(Not(okv), Or(Eq(Rid(rs.m), IntLit(0)), allVisited))))
+	// a map that yields a key is not empty
+	st.assume(Implies(okv, Ge(Select(vc.mapHeap(st, "len", "", ""), Rid(rs.m)), IntLit(1))))
 	st.assume(vc.rangeAssumption(k, rs.mt.Key(), st.alloc))
 	v := vc.Define(x.Name()+"v", Select(val, k))
 	st.assume(vc.rangeAssumption(v, rs.mt.Elem(), st.alloc))
@@ -1098,6 +1215,8 @@ type mapEffect struct {
 }
 
 type effects struct {
+	fresh     map[Sort]bool // writes into objects allocated inside the loop
+	chrecv    bool
 	mapRoots  []mapEffect
 	ghostVars map[string]bool
 	all    bool
@@ -1125,6 +1244,11 @@ func (fr *Frame) rootOf(v ssa.Value, li *loopInfo) (Term, bool) {
 	}
 	if in, ok := v.(ssa.Instruction); ok {
 		if li.blocks[in.Block()] {
+			switch v.(type) {
+			case *ssa.Alloc, *ssa.MakeSlice:
+				// allocated inside the loop: a fresh object, reported with an invalid term and ok=true
+				return Term{}, true
+			}
 			return Term{}, false
 		}
 	}
@@ -1232,13 +1356,18 @@ func (fr *Frame) loopInvariantLoad(ld *ssa.UnOp, li *loopInfo) (Term, bool) {
 
 func (fr *Frame) loopEffects(li *loopInfo) *effects {
 	vc := fr.vc
-	ef := &effects{sorts: map[Sort][]Term{}, unk: map[Sort]bool{}, ghostVars: map[string]bool{}}
+	ef := &effects{sorts: map[Sort][]Term{}, unk: map[Sort]bool{}, ghostVars: map[string]bool{}, fresh: map[Sort]bool{}}
 	addStore := func(addr ssa.Value, t types.Type) {
 		leaf := map[Sort]bool{}
 		vc.leafSorts(t, leaf)
 		root, ok := fr.rootOf(addr, li)
 		for s := range leaf {
-			if ok {
+			if ok && !root.Valid() {
+				ef.fresh[s] = true
+				if _, has := ef.sorts[s]; !has {
+					ef.sorts[s] = nil
+				}
+			} else if ok {
 				ef.sorts[s] = append(ef.sorts[s], root)
 			} else {
 				ef.unk[s] = true
@@ -1258,11 +1387,11 @@ func (fr *Frame) loopEffects(li *loopInfo) *effects {
 			case *ssa.Alloc, *ssa.MakeSlice, *ssa.MakeMap, *ssa.MakeInterface, *ssa.MakeClosure, *ssa.MakeChan:
 				ef.alloc = true
 				if a, ok := x.(*ssa.Alloc); ok {
-					// zero-initialisation writes into a fresh object: no frame damage, but the heap term changes
+					// zero-initialisation writes into a fresh object
 					leaf := map[Sort]bool{}
 					vc.leafSorts(a.Type().Underlying().(*types.Pointer).Elem(), leaf)
 					for s := range leaf {
-						ef.unk[s] = true
+						ef.fresh[s] = true
 						if _, has := ef.sorts[s]; !has {
 							ef.sorts[s] = nil
 						}
@@ -1272,9 +1401,21 @@ func (fr *Frame) loopEffects(li *loopInfo) *effects {
 					leaf := map[Sort]bool{}
 					vc.leafSorts(ms.Type().Underlying().(*types.Slice).Elem(), leaf)
 					for s := range leaf {
-						ef.unk[s] = true
+						ef.fresh[s] = true
 						if _, has := ef.sorts[s]; !has {
 							ef.sorts[s] = nil
+						}
+					}
+				}
+				if mi, ok := x.(*ssa.MakeInterface); ok {
+					if srt, err := vc.tt.SortOf(mi.X.Type()); err == nil && srt != SRef {
+						leaf := map[Sort]bool{}
+						vc.leafSorts(mi.X.Type(), leaf)
+						for s := range leaf {
+							ef.fresh[s] = true
+							if _, has := ef.sorts[s]; !has {
+								ef.sorts[s] = nil
+							}
 						}
 					}
 				}
@@ -1283,6 +1424,12 @@ func (fr *Frame) loopEffects(li *loopInfo) *effects {
 				}
 			case *ssa.Range, *ssa.Next:
 				ef.ghosts = true
+			case *ssa.Select:
+				ef.chrecv = true
+			case *ssa.UnOp:
+				if x.Op == token.ARROW {
+					ef.chrecv = true
+				}
 			case ssa.CallInstruction:
 				fr.callEffects(x, li, ef)
 			}
@@ -1335,12 +1482,16 @@ func (fr *Frame) enterLoop(li *loopInfo, pre *State, phis []*ssa.Phi, phiEntry m
 						conds = append(conds, fmt.Sprintf("(not (= (rid q!r) %s))", r.S))
 					}
 				}
+				if ef.fresh[s] {
+					conds = append(conds, fmt.Sprintf("(< (rid q!r) %s)", pre.alloc.S))
+				}
 				nh = vc.MixHeap(s, old, Term{fmt.Sprintf("(and %s true)", strings.Join(conds, " ")), SBool})
 			} else {
 				// unknown targets: nothing preserved for this sort
 				nh = vc.Fresh("hl", heapSort(s))
 			}
 			hs.heaps[s] = nh
+			hs.touch(s)
 			vc.heapReg[s] = true
 		}
 		if ef.maps {
@@ -1364,7 +1515,15 @@ func (fr *Frame) enterLoop(li *loopInfo, pre *State, phis []*ssa.Phi, phiEntry m
 			hs.alloc = na
 		}
 	}
+	if ef.chrecv || ef.all {
+		for _, elem := range fr.recvElemTypes(li) {
+			hs.ghost[vc.recvKey(elem)] = vc.Fresh("chrecv", SArray(SInt, SInt))
+		}
+	}
 	for k, g := range hs.ghost {
+		if strings.HasPrefix(k, "chrecv!") {
+			continue
+		}
 		if strings.HasPrefix(k, "gv!") {
 			if !ef.ghostVars[k[3:]] && !ef.all {
 				continue
@@ -1480,6 +1639,23 @@ func (fr *Frame) loopEnv(li *loopInfo, st *State, phiVals map[*ssa.Phi]Term) *Sp
 		for phi, t := range phiVals {
 			if phi.Comment == name {
 				return SpecVal{T: t, Ty: phi.Type()}, true
+			}
+		}
+		// 2. header phi of an enclosing loop
+		for h, outer := range fr.loops {
+			if outer == li || !outer.blocks[li.header] || !h.Dominates(li.header) {
+				continue
+			}
+			for _, in := range h.Instrs {
+				phi, ok := in.(*ssa.Phi)
+				if !ok {
+					break
+				}
+				if phi.Comment == name {
+					if t, ok := fr.vals[phi]; ok {
+						return SpecVal{T: t, Ty: phi.Type()}, true
+					}
+				}
 			}
 		}
 		return fr.lookupLocal(name, li.header, st, li)
